@@ -300,7 +300,9 @@ pub fn gen_ledger(r: &mut Rng, cfg: &GenCfg) -> Ledger {
                     continue;
                 }
                 pos[ti] -= q;
-                out.push(GTx::new(date, tk, Kind::Sell, q, gen_price(r), gen_fee(r, cfg.fees)));
+                // now and then a worthless disposal: nil consideration, the sale still has fees
+                let price = if r.chance(1, 25) { Decimal::ZERO } else { gen_price(r) };
+                out.push(GTx::new(date, tk, Kind::Sell, q, price, gen_fee(r, cfg.fees)));
             }
             Kind::Split => {
                 let ratio = if cfg.inexact_ratios && r.chance(1, 3) { inexact_ratio(r) } else { exact_ratio(r) };
@@ -308,7 +310,12 @@ pub fn gen_ledger(r: &mut Rng, cfg: &GenCfg) -> Ledger {
                 out.push(GTx::new(date, tk, Kind::Split, ratio, Decimal::ZERO, Decimal::ZERO));
             }
             Kind::Unsplit => {
-                let ratio = if cfg.inexact_ratios && r.chance(1, 3) { inexact_ratio(r) } else { exact_unratio(r) };
+                // a consolidation whose reciprocal does not terminate (3, 6, 7, 9) when the holding divides
+                // exactly and no sale of the security lies in the 30 days before (no look-ahead crosses it)
+                let divisible: Vec<i64> = [3i64, 6, 7, 9].iter().copied().filter(|k| pos[ti] > Decimal::ZERO && (pos[ti] % Decimal::from(*k)).is_zero()).collect();
+                let quiet = !out.iter().any(|t| t.ticker == tk && t.kind == Kind::Sell && t.date <= date && (date - t.date).num_days() <= 30);
+                let ratio = if !divisible.is_empty() && quiet && r.chance(1, 2) { Decimal::from(*r.pick(&divisible)) }
+                    else if cfg.inexact_ratios && r.chance(1, 3) { inexact_ratio(r) } else { exact_unratio(r) };
                 pos[ti] /= ratio;
                 out.push(GTx::new(date, tk, Kind::Unsplit, ratio, Decimal::ZERO, Decimal::ZERO));
             }
@@ -407,6 +414,41 @@ pub fn gen_contention(r: &mut Rng, cfg: &GenCfg) -> Ledger {
     } else {
         out.sort_by_key(|t| t.date);
     }
+    out
+}
+
+/// A consolidation (or split) by a ratio whose reciprocal does not terminate — 3, 6, 7, 9 — on a
+/// holding that divides exactly, followed by sales of all or part of the consolidated holding.
+/// Exact in decimal arithmetic as long as the code divides by the ratio (or multiplies by it).
+pub fn gen_consolidation(r: &mut Rng, cfg: &GenCfg) -> Ledger {
+    let tk = "AAA";
+    let (ay, am, ad) = *r.pick(ANCHORS);
+    let anchor = d(ay, am, ad);
+    let rho = Decimal::from(*r.pick(&[3i64, 6, 7, 9]));
+    let k1 = Decimal::from(*r.pick(&[10i64, 37, 100, 250]));
+    let mut out: Ledger = Vec::new();
+    out.push(GTx::new(anchor - Duration::days(r.range(60, 400)), tk, Kind::Buy, k1 * rho, gen_price(r), gen_fee(r, cfg.fees)));
+    let mut held = k1 * rho;
+    if r.chance(1, 2) {
+        let k2 = Decimal::from(*r.pick(&[1i64, 5, 20]));
+        out.push(GTx::new(anchor - Duration::days(r.range(41, 59)), tk, Kind::Buy, k2 * rho, gen_price(r), gen_fee(r, cfg.fees)));
+        held += k2 * rho;
+    }
+    if r.chance(1, 3) {
+        // a split by the same kind of ratio first: multiplication is exact
+        let s = Decimal::from(*r.pick(&[3i64, 7]));
+        out.push(GTx::new(anchor - Duration::days(40), tk, Kind::Split, s, Decimal::ZERO, Decimal::ZERO));
+        held *= s;
+    }
+    out.push(GTx::new(anchor, tk, Kind::Unsplit, rho, Decimal::ZERO, Decimal::ZERO));
+    held /= rho; // exact by construction
+    let all = r.chance(1, 2);
+    let q1 = if all { held } else { (held / Decimal::from(2)).floor().max(Decimal::ONE) };
+    out.push(GTx::new(anchor + Duration::days(r.range(0, 50)), tk, Kind::Sell, q1, gen_price(r), gen_fee(r, cfg.fees)));
+    if !all && r.chance(1, 2) {
+        out.push(GTx::new(anchor + Duration::days(r.range(90, 200)), tk, Kind::Sell, held - q1, gen_price(r), gen_fee(r, cfg.fees)));
+    }
+    if r.chance(1, 3) { r.shuffle(&mut out); }
     out
 }
 
